@@ -22,7 +22,15 @@ def base_formulas():
             # the same closed sub-formula inside and outside a restricted scope (first occurrence inside)
             ('and', ('not', ('exists', 'x', 'd', ('jump', 'x', ('EF', P0)))), ('exists', 'x', None, ('jump', 'x', ('EF', P0)))),
             ('or', ('bind', 'x', 'd', ('and', ('AX', ('EX', P1)), X)), ('AX', ('EX', P1))),
-            ('and', ('exists', 'x', None, ('jump', 'x', ('AG', P1))), ('forall', 'x', 'd', ('jump', 'x', ('AG', P1))))] + many_occurrences() + two_depths()
+            ('and', ('exists', 'x', None, ('jump', 'x', ('AG', P1))), ('forall', 'x', 'd', ('jump', 'x', ('AG', P1))))] + patterns_in_scopes() + many_occurrences() + two_depths()
+
+def patterns_in_scopes():
+    """the two recognised patterns as the replaced closed sub-formula, inside a restricted scope, directly or under | EX EF EU"""
+    FP = ('bind', 'xx', None, ('AX', XX)); AT = ('bind', 'xx', None, ('AG', ('EF', XX)))
+    out = []
+    for pat in (FP, AT):
+        out += [('bind', 'x', 'd', ('EF', pat)), ('exists', 'x', 'd', ('or', ('jump', 'x', P0), ('EX', pat))), ('bind', 'x', 'd', ('EU', ('not', X), pat)), ('forall', 'x', 'd', pat)]
+    return out
 
 def many_occurrences():
     """one closed sub-formula at >= 4 places: twice below the same operator inside a restricted scope whose variable it does
@@ -80,6 +88,7 @@ def run(chk):
         if phi in td and not thorough: continue      # k = 3 on two variables: ~90 s per task, thorough tier only (quick: one variable)
         pos = closed_positions(phi)
         rng.shuffle(pos)
+        if phi in patterns_in_scopes(): pos.sort(key=lambda ps: not (ps[1][0] == 'bind' and ps[1][1] == 'xx'))      # replace the pattern itself
         k = S.quant_depth(phi) or 1
         for (path, sub) in pos[:3 if thorough else 1]:
             sub_phi = G.replace(phi, path, ('wild', 'q1'))
@@ -124,6 +133,7 @@ def e_uni(chk, thorough):
             pos = closed_positions(phi)
             if not pos: continue
             rng.shuffle(pos)
+            if phi in patterns_in_scopes(): pos.sort(key=lambda ps: not (ps[1][0] == 'bind' and ps[1][1] == 'xx'))
             dup = [x for x in pos if len(all_occurrences(phi, x[1])) >= 2]
             if dup: pos = dup + [x for x in pos if x not in dup]
             chosen = [pos[0]]
